@@ -227,7 +227,9 @@ pub fn run(r: &mut Runner) {
     {
         // double-double neighbourhoods (0..16 ulps and a geometric tail; thorough: 0..80 and tail) of nice values and of
         // their images under every elementary function: pre-images of nice results, where a result may be snapped
-        let nb = crate::fx::nice_neighbourhoods(quick);
+        let mut nb = crate::fx::nice_neighbourhoods(quick);
+        // both sides of the end points of the stated ranges and of the documented internal thresholds
+        nb.extend(crate::fx::edge_points(&[1048576.0, core::f64::consts::FRAC_PI_4], quick));
         let nn = nb.len();
         r.notes.push(format!("neighbourhoods of nice pre-images: {} operands ({} base points = integers, simple fractions, multiples of pi, e, ln 2, ln 10, sqrt 2, sqrt 3 and their images under every elementary function; offsets in double-double ulps on both sides)", nn, crate::fx::nice_bases().len()));
         r.par("neighbourhoods of nice pre-images", nn.div_ceil(64), nn as u64, |c, l| {
